@@ -260,12 +260,22 @@ def extract(path):
         _need(len(wh) == 1 and len(wh[0].value.args) == 1, "np.where(lon OP t)")
         op, t = _cmp(s, wh[0].value.args[0])
         inner = [n for n in stmts if isinstance(n, ast.If)]
-        _need(len(inner) == 1, "if w.size > 0")
-        ia = [n for n in inner[0].body if isinstance(n, ast.AugAssign)]
-        _need(len(ia) == 1, "lon[w] +=/-= 360.0")
-        return op, t, ("add" if isinstance(ia[0].op, ast.Add) else "sub"), s.num(ia[0].value)
+        _need(len(inner) == 1 and len(stmts) == 3, "lon +=/-= abs_shift; w = where(...); if w.size > 0")
+        ib = inner[0].body
+        _need(not inner[0].orelse and len(ib) in (1, 3) and isinstance(ib[0], ast.AugAssign), "lon[w] +=/-= 360.0")
+        rewrap = None
+        if len(ib) == 3:
+            # second wrap after the first: (w,) = np.where(lon OP t); if w.size > 0: lon[w] -= p
+            _need(isinstance(ib[1], ast.Assign) and isinstance(ib[1].value, ast.Call) and len(ib[1].value.args) == 1
+                  and isinstance(ib[2], ast.If) and not ib[2].orelse and len(ib[2].body) == 1
+                  and isinstance(ib[2].body[0], ast.AugAssign) and isinstance(ib[2].body[0].op, ast.Sub),
+                  "second wrap: w = where(lon OP t); if w.size > 0: lon[w] -= p")
+            op2, t2 = _cmp(s, ib[1].value.args[0])
+            rewrap = (op2, t2, s.num(ib[2].body[0].value))
+        return op, t, ("add" if isinstance(ib[0].op, ast.Add) else "sub"), s.num(ib[0].value), rewrap
     c["shift_neg"] = branch(br[0].body, ast.Add)
     c["shift_pos"] = branch(br[0].orelse, ast.Sub)
+    _need(c["shift_neg"][4] is None, "no second wrap in the negative-shift branch")
     _need(c["shift_neg"][2] == "sub" and c["shift_pos"][2] == "add", "negative shift wraps down, positive wraps up")
     el = top[0].orelse
     _need(len(el) == 1 and isinstance(el[0], ast.If) and _is_name(el[0].test, "wrap") and not el[0].orelse, "elif wrap:")
@@ -276,6 +286,49 @@ def extract(path):
     ia = [n for n in inner[0].body if isinstance(n, ast.AugAssign)] if len(inner) == 1 else []
     _need(len(ia) == 1 and isinstance(ia[0].op, ast.Sub), "lon[w] -= 360")
     c["wrap"] = (op, t, s.num(ia[0].value))
+    # ---- how each routine extracts the latitude: arcsin(third component) or arctan2(z, sqrt(x*x + y*y))
+    def lat_method(fn, want):
+        asin = _walk_calls(fn, "arcsin")
+        hits = []
+        for k in _walk_calls(fn, "arctan2"):
+            if len(k.args) >= 2 and isinstance(k.args[0], ast.Name) and isinstance(k.args[1], ast.Call) \
+                    and _is_name(k.args[1].func, "sqrt") and len(k.args[1].args) == 1:
+                e = k.args[1].args[0]
+                if isinstance(e, ast.BinOp) and isinstance(e.op, ast.Add) \
+                        and all(isinstance(m, ast.BinOp) and isinstance(m.op, ast.Mult) and isinstance(m.left, ast.Name)
+                                and isinstance(m.right, ast.Name) and m.left.id == m.right.id for m in (e.left, e.right)):
+                    hits.append((k.args[0].id, e.left.left.id, e.right.left.id))
+        if asin:
+            _need(not hits, "%s mixes arcsin and arctan2 latitudes" % fn.name)
+            return False
+        _need(hits == [want], "%s: latitude = arctan2(%s, sqrt(%s * %s + %s * %s))" % (fn.name, want[0], want[1], want[1], want[2], want[2]))
+        return True
+    c["lat_atan2"] = {
+        "euler": lat_method(s.funcs["euler"], ("z", "x", "y")),
+        "rotate": lat_method(s.funcs["rotate"], ("z", "x", "y")),
+        "xyz2eq": lat_method(s.funcs["_xyz2thetaphi"], ("z", "x", "y")),
+        "eq2sdss": lat_method(s.funcs["eq2sdss"], ("x", "y", "z")),
+        "sdss2eq": lat_method(s.funcs["sdss2eq"], ("z", "x", "y")),
+    }
+    # clipping of the arcsin argument (as-found euler/rotate clip only from above)
+    # ---- xyz2eq: `atbound(theta, 0, 360)` for both units (as found) or only for degrees with a 2*PI wrap for radians
+    xq = s.funcs["xyz2eq"]
+    units_if = [n for n in xq.body if isinstance(n, ast.If) and isinstance(n.test, ast.Compare) and _is_name(n.test.left, "units")]
+    _need(len(units_if) == 1, "one `if units == \"deg\":` in xyz2eq")
+    in_if = any(isinstance(n, ast.Call) and _is_name(n.func, "atbound") for st in units_if[0].body for n in ast.walk(st))
+    if in_if:
+        el = units_if[0].orelse
+        _need(len(el) == 2 and isinstance(el[0], ast.Assign) and isinstance(el[0].value, ast.Call)
+              and len(el[0].value.args) == 1 and _cmp(s, el[0].value.args[0])[0] == "CLt" and _cmp(s, el[0].value.args[0])[1][0] == 0
+              and isinstance(el[1], ast.If) and len(el[1].body) == 1 and isinstance(el[1].body[0], ast.AugAssign)
+              and isinstance(el[1].body[0].op, ast.Add), "else: w = where(theta < 0.0); if w.size > 0: theta[w] += 2.0 * PI")
+        v = el[1].body[0].value
+        _need(isinstance(v, ast.BinOp) and isinstance(v.op, ast.Mult) and _is_name(v.right, "PI")
+              and Fraction(*s.num(v.left)) == 2, "theta[w] += 2.0 * PI")
+        c["xyz2eq_rad_wrap_2pi"] = True
+    else:
+        _need(not units_if[0].orelse, "no else branch of `if units == \"deg\"` in xyz2eq")
+        c["xyz2eq_rad_wrap_2pi"] = False
     # shiftra just forwards
     rets = [n for n in ast.walk(s.funcs["shiftra"]) if isinstance(n, ast.Return)]
     _need(len(rets) == 1 and isinstance(rets[0].value, ast.Call) and _is_name(rets[0].value.func, "shiftlon"), "shiftra calls shiftlon")
@@ -353,13 +406,23 @@ def emit(c):
     w("Definition atbound2_reflect : R := %s." % _r(c["atbound2_reflect"]))
     w("Definition atbound2_phishift : R := %s." % _r(c["atbound2_phishift"]))
     w("")
+    w("(* shape of the code: true = latitude by arctan2(z, sqrt(x*x + y*y)); false = arcsin of the third component *)")
+    for k in ("euler", "rotate", "xyz2eq", "eq2sdss", "sdss2eq"):
+        w("Definition %s_lat_atan2 : bool := %s." % (k, "true" if c["lat_atan2"][k] else "false"))
+    w("(* xyz2eq(units='rad'): true = negative ra wrapped by 2*PI; false = atbound(theta, 0, 360) applied to radians *)")
+    w("Definition xyz2eq_rad_wrap_2pi : bool := %s." % ("true" if c["xyz2eq_rad_wrap_2pi"] else "false"))
+    w("")
     w("(* shiftlon (exact rationals, Q) *)")
     w("Definition shift_mod : Q := %s." % _q(c["shift_mod"]))
     for nm in ("neg", "pos"):
-        op, t, _, p = c["shift_" + nm]
+        op, t, _, p, _rw = c["shift_" + nm]
         w("Definition shift_%s_cmp : cmp := %s." % (nm, op))
         w("Definition shift_%s_thr : Q := %s." % (nm, _q(t)))
         w("Definition shift_%s_period : Q := %s." % (nm, _q(p)))
+    rw = c["shift_pos"][4]
+    w("(* second wrap after `lon[w] += period` of the positive-shift branch (None: absent) *)")
+    w("Definition shift_pos_rewrap : option (cmp * Q * Q) := %s." % (
+        "None" if rw is None else "Some (%s, %s, %s)" % (rw[0], _q(rw[1]), _q(rw[2]))))
     op, t, p = c["wrap"]
     w("Definition wrap_cmp : cmp := %s." % op)
     w("Definition wrap_thr : Q := %s." % _q(t))
@@ -370,6 +433,24 @@ def emit(c):
 def generate(impl_dir):
     """Gen.v text for the coords.py of the build at impl_dir"""
     return emit(extract(os.path.join(impl_dir, "esutil", "coords.py")))
+
+
+def regenerate(impl_dir, coqdir):
+    """-> (constants, changed: bool); rewrites coq/theories/C09/Gen.v only when its text changes; raises TranslateError"""
+    p = os.path.join(impl_dir, "esutil", "coords.py")
+    if not os.path.exists(p):
+        raise TranslateError("cannot read %s" % p)
+    c = extract(p)
+    txt = emit(c)
+    dst = os.path.join(coqdir, "theories", "C09", "Gen.v")
+    old = open(dst).read() if os.path.exists(dst) else None
+    if old == txt:
+        return c, False
+    tmp = dst + ".tmp.%d" % os.getpid()
+    with open(tmp, "w") as f:
+        f.write(txt)
+    os.replace(tmp, dst)
+    return c, True
 
 
 if __name__ == "__main__":
